@@ -42,10 +42,16 @@ var (
 	createdRe = regexp.MustCompile(`^created by (\S+) in goroutine (\d+)`)
 )
 
-// dumpAll parses a full goroutine dump.
-func dumpAll() map[int64]*gInfo {
+var dumpSize atomic.Int64
+
+// dumpAll takes a full goroutine dump and parses the goroutines whose stack
+// text contains filter (all if empty).
+func dumpAll(filter string) map[int64]*gInfo {
 	DumpsTaken.Add(1)
-	size := 1 << 20
+	size := int(dumpSize.Load())
+	if size < 1<<20 {
+		size = 1 << 20
+	}
 	var buf []byte
 	for {
 		buf = make([]byte, size)
@@ -56,8 +62,14 @@ func dumpAll() map[int64]*gInfo {
 		}
 		size *= 2
 	}
+	if int64(size) > dumpSize.Load() {
+		dumpSize.Store(int64(size))
+	}
 	out := map[int64]*gInfo{}
 	for _, blk := range strings.Split(string(buf), "\n\n") {
+		if filter != "" && !strings.Contains(blk, filter) {
+			continue
+		}
 		lines := strings.Split(strings.TrimSpace(blk), "\n")
 		if len(lines) == 0 {
 			continue
